@@ -309,15 +309,11 @@ def r3_text(ck, F, tag, enc):
         else:
             ck.bad("C19.R3", k, LF, "Display=%r, expected %r in some letter case" % (d, n))
     # --- parsing tables
-    for ty, names, digits in ((LV, NAMES, {1: "ERROR", 2: "WARN", 3: "INFO", 4: "DEBUG", 5: "TRACE"}),
-                              (LF, NAMES + ["OFF"], {0: "OFF", 1: "ERROR", 2: "WARN", 3: "INFO", 4: "DEBUG", 5: "TRACE"})):
+    def extract(ty):
         top = F.body("<%s as core::str::traits::FromStr>::from_str" % ty)
-        short = ty.rsplit("::", 1)[1]
-        if not ck.anchor("C19.R3", "FromStr for " + short, top):
-            continue
-        got_digits = {}
-        got_names = {}     # accepted literal -> (NAME, how)
-        other_accept = []
+        if top is None:
+            return None, {}, {}, []
+        got_digits, got_names, other_accept = {}, {}, []
         for cb in F.closures_of(top):
             for p in PathEval(cb).run():
                 if p.end != "return":
@@ -333,7 +329,6 @@ def r3_text(ck, F, tag, enc):
                         continue
                 else:
                     continue
-                # which condition selected this row: the last cond with a taken (non-zero) edge
                 # integer switches (digits): any explicit arm selects; boolean tests: the true edge selects
                 sel = [c for c in p.conds if (c[0] == ("arg", 2) and c[1] is not None) or (c[0] != ("arg", 2) and c[1] != 0)]
                 if len(sel) != 1:
@@ -349,6 +344,34 @@ def r3_text(ck, F, tag, enc):
                     got_names[("exact", ct[2][1][2])] = val
                 else:
                     other_accept.append("%s under %s" % (val, show(ct)))
+        return top, got_digits, got_names, other_accept
+
+    filter_tables = extract(LF)
+    for ty, names, digits in ((LV, NAMES, {1: "ERROR", 2: "WARN", 3: "INFO", 4: "DEBUG", 5: "TRACE"}),
+                              (LF, NAMES + ["OFF"], {0: "OFF", 1: "ERROR", 2: "WARN", 3: "INFO", 4: "DEBUG", 5: "TRACE"})):
+        short = ty.rsplit("::", 1)[1]
+        top, got_digits, got_names, other_accept = extract(ty) if ty == LV else filter_tables
+        if not ck.anchor("C19.R3", "FromStr for " + short, top):
+            continue
+        if ty == LV and not got_digits and not got_names:
+            # accepted idiom: Level::from_str delegating to LevelFilter::from_str and keeping the Some(level) results
+            deleg = [t for x in [top] + F.closures_of(top) for bb, t in x.calls()
+                     if t["callee"].get("resolved", t["callee"].get("path")) == "<%s as core::str::traits::FromStr>::from_str" % LF
+                     or (t["callee"].get("trait") == "core::str::traits::FromStr" and t["callee"].get("self_ty") == LF)
+                     or (t["callee"].get("method") == "parse" and LF in " ".join(t["callee"].get("targs", [])))]
+            into = [t for x in [top] + F.closures_of(top) for bb, t in x.calls() if t["callee"].get("path") == LF + "::into_level"]
+            # ... or passed as a function value: `.and_then(LevelFilter::into_level)`
+            for x in [top] + F.closures_of(top):
+                for bb, t in x.calls():
+                    for a in t["argv"]:
+                        if (a.get("const") or {}).get("fn") == LF + "::into_level":
+                            into.append(t)
+            if deleg and into:
+                _, fd, fn_, fo = filter_tables
+                got_digits = {k: v for k, v in fd.items() if v != "OFF"}
+                got_names = {k: v for k, v in fn_.items() if v != "OFF"}
+                other_accept = list(fo)
+                ck.note("FromStr for Level delegates to LevelFilter::from_str + into_level: its table is derived from the filter's")
         # the numeric closure must be fed by `usize::from_str(s)` of the whole input and the name closure by s
         for d, n in digits.items():
             k = "%s parses %d" % (short, d)
